@@ -151,6 +151,40 @@ Proof.
   - left. split; [|reflexivity]. rewrite <- (perm_live _ _ _ HP). apply live_false. apply retrieve_none. auto.
 Qed.
 
+(* a failed realloc: removeNode, then addNewNode of the very same record -- the table holds what it held before *)
+Lemma readd_flat a t : Inv t ->
+  match t_remove a t with
+  | (None, _) => ~ In a (addrs (flat t))
+  | (Some n, t') => n_addr n = a /\ In n (flat t) /\ Inv (t_add n t') /\ Permutation (flat (t_add n t')) (flat t)
+  end.
+Proof.
+  intros HI. destruct (remove_flat a t HI) as (R1 & R2 & R3).
+  destruct (t_remove a t) as [[n|] t']; cbn [fst snd] in *.
+  - symmetry in R1. destruct (retrieve_some _ _ _ R1) as (A & B & EA & Hn & HA & Hr).
+    pose proof HI as (_ & _ & ND). rewrite EA in ND. destruct (nodup_mid_notin _ _ _ ND) as [Hn1 Hn2].
+    rewrite Hr in R2.
+    destruct (add_flat n t' R3) as (In' & A' & B' & Ea & Eb).
+    { rewrite R2. apply notin_app. tauto. }
+    split; [assumption|]. split; [rewrite EA; apply in_elt|]. split; [assumption|].
+    rewrite Eb, EA. eapply perm_trans; [apply Permutation_sym, Permutation_middle|].
+    eapply perm_trans; [|apply Permutation_middle]. constructor. rewrite <- Ea, R2. apply Permutation_refl.
+  - symmetry in R1. apply retrieve_none in R1. assumption.
+Qed.
+
+Lemma realloc_failed_cases st a x : R st a ->
+  (live x (a_recs a) = false /\ d_realloc_failed st x = (st, true)) \/
+  (live x (a_recs a) = true /\ exists t', d_realloc_failed st x = (with_tbl st t', false) /\ R (with_tbl st t') a /\
+     Permutation (flat t') (flat (d_tbl st))).
+Proof.
+  intros (HI & HP & E1 & E2 & E3). pose proof (readd_flat x _ HI) as H.
+  unfold d_realloc_failed. destruct (t_remove x (d_tbl st)) as [[n|] t'].
+  - right. destruct H as (Hn & Hin & HI' & HP'). split.
+    + rewrite <- (perm_live _ _ _ HP). apply live_in. rewrite <- Hn. apply in_map. assumption.
+    + eexists. split; [reflexivity|]. split; [|assumption]. unfold R. cbn [with_tbl d_tbl d_period d_stage d_seq].
+      split; [assumption|]. split; [|auto]. eapply perm_trans; eassumption.
+  - left. split; [|reflexivity]. rewrite <- (perm_live _ _ _ HP). apply live_false. assumption.
+Qed.
+
 (* boolean set comparison of report entries *)
 Lemma entry_eqb_refl e : entry_eqb e e = true.
 Proof. unfold entry_eqb. rewrite !N.eqb_refl. reflexivity. Qed.
@@ -166,6 +200,9 @@ Proof.
   - apply Permutation_nil in H. discriminate.
   - apply Permutation_sym, Permutation_nil in H. discriminate.
 Qed.
+
+Lemma perm_existsb {A} (f : A -> bool) x y : Permutation x y -> existsb f x = existsb f y.
+Proof. induction 1; cbn; try congruence. destruct (f x), (f y); reflexivity. Qed.
 
 Definition item_ok (x e : option oitem) : Prop :=
   match x, e with
@@ -217,9 +254,14 @@ Proof.
     rewrite !(count_perm _ _ _ HP), !N.eqb_refl. reflexivity.
   - (* report *) rewrite (report_spec p st HI). cbn [fst snd item_ok check_item]. split; [assumption|].
     assert (HF : Permutation (filter (applies p) (flat (d_tbl st))) (filter (applies p) (a_recs a))) by (apply perm_filter; assumption).
-    rewrite (perm_nil_match _ _ HF), eqb_reflx. rewrite (Permutation_length HF), N.eqb_refl. cbn [andb].
+    rewrite (perm_nil_match _ _ HF), eqb_reflx. rewrite (Permutation_length HF), N.eqb_refl.
+    rewrite (perm_existsb _ _ _ HF), eqb_reflx. cbn [andb].
     assert (HE := Permutation_map entry_of HF).
     rewrite (perm_subset _ _ HE), (perm_subset _ _ (Permutation_sym HE)), (Permutation_length HE), Nat.eqb_refl. reflexivity.
+  - (* allocation refused by the underlying allocator *) cbn [fst snd item_ok check_item]. split; [assumption|reflexivity].
+  - (* reallocation refused by the underlying allocator *) destruct a0 as [x|]; cbn [fst snd].
+    + destruct (realloc_failed_cases st a x HR) as [(Hl & Ed)|(Hl & t' & Ed & HR' & _)]; rewrite Ed, Hl; cbn [fst snd item_ok check_item]; split; auto.
+    + split; [assumption|reflexivity].
 Qed.
 
 (* ---------------- all histories *)
@@ -269,6 +311,21 @@ Proof.
   rewrite E in HF. apply Permutation_sym, Permutation_nil in HF. assumption.
 Qed.
 
+(* the report item of a reachable state: "no leaks", the footer total and the malloc note are those of the abstract outstanding
+   set of the period, and the entries are that set *)
+Lemma report_item_exact ops p : valid ops = true ->
+  let st := c_exec d_init ops in let out := filter (applies p) (a_recs (a_exec a_init ops)) in
+  exists l, Permutation l out /\
+    snd (c_step st (OpReport p)) =
+    Some (OR (match out with [] => true | _ => false end) false (N.of_nat (length out)) (map entry_of l) (existsb is_malloc out)).
+Proof.
+  intros H st out. destruct (refines ops H) as (HI & HP & _). fold st in HI, HP.
+  assert (HF : Permutation (filter (applies p) (flat (d_tbl st))) out) by (apply perm_filter; assumption).
+  exists (filter (applies p) (flat (d_tbl st))). split; [assumption|].
+  cbn [c_step]. rewrite (report_spec p st HI). cbn [snd].
+  rewrite (perm_nil_match _ _ HF), (Permutation_length HF), (perm_existsb _ _ _ HF). reflexivity.
+Qed.
+
 (* releasing a removes exactly the node with key a: every other node keeps its place *)
 Lemma release_exact a t : Inv t ->
   match t_remove a t with
@@ -294,6 +351,46 @@ Lemma iteration_complete p st : Inv (d_tbl st) ->
   d_report p st = Some (filter (applies p) (flat (d_tbl st))).
 Proof. apply report_spec. Qed.
 
+(* a request whose underlying allocator call fails changes nothing: the abstract map is untouched and the table still holds
+   exactly that map (same records, same counters), so every later total / report / release answers as before *)
+Definition is_failed_request (o : op) : bool :=
+  match o with OpAllocFail _ _ _ _ _ | OpReallocFail _ _ _ _ _ _ => true | _ => false end.
+Lemma failed_request_changes_nothing st a o : R st a -> is_failed_request o = true ->
+  let st' := fst (c_step st o) in
+  fst (a_step a o) = a /\ R st' a /\ Permutation (flat (d_tbl st')) (flat (d_tbl st)) /\
+  d_period st' = d_period st /\ d_stage st' = d_stage st /\ d_seq st' = d_seq st /\
+  (forall p, t_total p (d_tbl st') = t_total p (d_tbl st)) /\
+  (forall p, exists l l', d_report p st = Some l /\ d_report p st' = Some l' /\ Permutation l' l).
+Proof.
+  intros HR Hf st'.
+  assert (H : fst (a_step a o) = a /\ R st' a /\ Permutation (flat (d_tbl st')) (flat (d_tbl st)) /\
+              d_period st' = d_period st /\ d_stage st' = d_stage st /\ d_seq st' = d_seq st).
+  { subst st'. destruct o; try discriminate; cbn [c_step a_step fst].
+    - split; [reflexivity|]. split; [assumption|]. split; [apply Permutation_refl|]. auto.
+    - destruct a0 as [x|]; cbn [fst]; [|split; [reflexivity|]; split; [assumption|]; split; [apply Permutation_refl|]; auto].
+      destruct (realloc_failed_cases st a x HR) as [(Hl & Ed)|(Hl & t' & Ed & HR' & HP')]; rewrite Ed; cbn [fst].
+      + split; [reflexivity|]. split; [assumption|]. split; [apply Permutation_refl|]. auto.
+      + split; [reflexivity|]. split; [assumption|]. split; [assumption|]. auto. }
+  destruct H as (H1 & H2 & H3 & H4 & H5 & H6).
+  split; [assumption|]. split; [assumption|]. split; [assumption|]. split; [assumption|]. split; [assumption|]. split; [assumption|]. split.
+  - intros p. pose proof HR as (_ & HP & _). pose proof H2 as (_ & HP2 & _).
+    rewrite (count_perm p _ _ HP), (count_perm p _ _ HP2). reflexivity.
+  - intros p. pose proof HR as (HI & _). pose proof H2 as (HI2 & _).
+    exists (filter (applies p) (flat (d_tbl st))), (filter (applies p) (flat (d_tbl st'))).
+    split; [apply report_spec; assumption|]. split; [apply report_spec; assumption|]. apply perm_filter. assumption.
+Qed.
+
+(* the code before 3db681c: after a failed realloc the table no longer holds the abstract map *)
+Definition realloc_failed_old_keeps_stmt : Prop :=
+  forall st a x, R st a -> R (fst (d_realloc_failed_old st x)) a.
+Lemma realloc_failed_old_refuted : ~ realloc_failed_old_keeps_stmt.
+Proof.
+  intros H. pose (ops := [OpAlloc 5%N 1%N 2%N 0%N 0%N]).
+  assert (HV : valid ops = true) by (vm_compute; reflexivity).
+  pose proof (H _ _ 5%N (refines ops HV)) as (_ & HP & _).
+  vm_compute in HP. apply Permutation_nil in HP. discriminate.
+Qed.
+
 Lemma walks_textbook a p b :
   l_remove a b = (l_retrieve a b, rm a b) /\ l_clear p b = filter (fun c => negb (applies p c)) b.
 Proof.
@@ -304,9 +401,13 @@ Qed.
 Local Open Scope N_scope.
 Definition example_ops : list op :=
   [OpStart; OpAlloc 5 4 0 1 10; OpAlloc 78 4 1 1 11; OpAlloc 151 0 2 2 12; OpAlloc 6 1 0 0 1; OpFree (Some 78) 1; OpFree (Some 78) 1;
-   OpInc; OpAlloc 78 2 2 0 3; OpRealloc (Some 5) 79 8 0 0 4; OpTotals; OpReport PChecking; OpStageFree; OpMark; OpDisable; OpAlloc 7 0 0 0 0;
+   OpInc; OpAlloc 78 2 2 0 3; OpRealloc (Some 5) 79 8 0 0 4;
+   OpReallocFail (Some 78) 9 2 0 0 1; OpAllocFail 3 0 0 0 2; OpReallocFail None 3 0 0 0 1; OpReallocFail (Some 5) 3 0 0 0 1; OpTotals; OpReport PChecking; OpStageFree; OpMark; OpDisable; OpAlloc 7 0 0 0 0;
    OpClear PDisabled; OpTotals; OpReport PAll].
 Example example_valid : valid example_ops = true.
 Proof. vm_compute. reflexivity. Qed.
 Example example_spec : spec example_ops (run example_ops) = true.
 Proof. vm_compute. reflexivity. Qed.
+Example example_failed : is_failed_request (OpReallocFail (Some 78) 9 2 0 0 1) = true /\
+  run (firstn 9 example_ops ++ [OpTotals; OpReallocFail (Some 78) 9 2 0 0 1; OpTotals]) = [OF false false; OF true false; OT 4 0 4 4; OF false false; OT 4 0 4 4].
+Proof. vm_compute. auto. Qed.
